@@ -15,6 +15,12 @@ CHECKS = {
  "C11": dict(engine="S", technique=S + "; emitted SQL translated to SMT (strings: z3 sequence theory)", design="4/C11",
    text="Every argument shape of all_features/features_of_type (featuretype None/str/collection, strand, order_by as string or tuple for every valid column incl. length and file_order, pairs, reverse) plus count_features_of_type/featuretypes/seqids is executed through the real make_query with symbolic text; WHERE and ORDER BY of the emitted SQL are compared with the statement over two symbolic rows (any strings, any ints). Counterexamples are replayed on real sqlite3 (the model, then a 300-row neighbour so that index-order effects show).",
    note="Trusts z3 string theory, vlib/symx.py, vlib/sqlsmt.py; assumes BINARY collation = code-point order and rowid order for an unfiltered scan without ORDER BY; reverse with several columns is unspecified by the statement and unchecked."),
+ "C02": dict(engine="X", technique=X + "; plus Engine S (SQL->SMT) for children()/parents() argument shapes", design="4/C02",
+   text="The real create_db (GFF importer, level-2 computation through its temp file), children(), parents() and iter_by_parent_childs run under CrossHair on 3 (thorough: 4) features whose Parent values are symbolic strings; the solver decides for each value whether it names a stored feature or dangles, so every DAG / shared child / dangling / child-before-parent arrangement within the bound is covered; results are compared as lists (each feature once) with the Parent graph at levels 1, 2, None and in the inverse direction. The level/featuretype/order_by argument shapes of the underlying query are decided for all values in Engine S. Counterexamples are replayed on real sqlite3.",
+   note="Bounds: 3 features with <=1 parent (+ two-parent cases for the last feature) in quick; simsql/jsonbox/fakefs/bins_stub stand in for sqlite3/json/files/bins (simsql validated against real sqlite3 on the repository's own test data; every counterexample replayed on the real stack)."),
+ "C16": dict(engine="X", technique=X.replace(" over pure-Python stand-ins for sqlite/files/json", ""), design="4/C16",
+   text="The real FeatureDB.merge and every shipped merge criterion (alone and combined, thresholds symbolic) run under CrossHair on 3 (thorough: 4) start-ordered features with unbounded integer positions; partition law, run-accumulation rule (independent restatement of each criterion), extents = min/max, fresh distinct ids, inputs untouched, idempotence of re-merging are asserted and confirmed over all paths.",
+   note="Feature lengths bounded (<=4 / <=6) because merge() uses Feature.__len__ for truthiness; seqid/strand/type range over two values; children_bp/merge_all (database side) are not yet covered."),
 }
 NA = {}
 def main():
